@@ -24,6 +24,7 @@ DIGIT = smt.ReRange('0', '9')
 WORD = smt.ReUnion(smt.ReRange('a', 'z'), smt.ReRange('A', 'Z'), DIGIT, smt.ReStr(smt.StrC('_')))
 SPACE = smt.ReUnion(*[smt.ReStr(smt.StrC(c)) for c in ' \t\n\r\x0b\x0c'])
 # any char except newline (python '.'): we approximate the alphabet by code points <= 0x2FFFF
+NL_OPT = smt.ReOpt(smt.ReStr(smt.StrC('\n')))
 ANYCHAR_NO_NL = smt.ReInter(smt.ReAllChar(), smt.ReComp(smt.ReStr(smt.StrC('\n'))))
 
 
@@ -210,15 +211,18 @@ def match_language(pattern, mode='match'):
         t = Translator.__new__(Translator)
         t.pattern, t.parsed, t.group_defined = pattern, parsed_alt, {}
         t.anchored_start = t.anchored_end = False
+        t.dollar = False
 
         def build(ctx, t=t):
             t.anchored_start = t.anchored_end = False
+            t.dollar = False
             items = list(t.parsed)
             if items and items[0][0] == sre_c.AT and items[0][1] in (sre_c.AT_BEGINNING, sre_c.AT_BEGINNING_STRING):
                 t.anchored_start = True
                 items = items[1:]
             if items and items[-1][0] == sre_c.AT and items[-1][1] in (sre_c.AT_END, sre_c.AT_END_STRING):
                 t.anchored_end = True
+                t.dollar = items[-1][1] == sre_c.AT_END
                 items = items[:-1]
             elif items and items[-1][0] == sre_c.BRANCH and mode != 'fullmatch':
                 # '^(a$|b$|c)' as produced by the parser's prefix factoring of '^a$|^b$|^c':
@@ -232,6 +236,8 @@ def match_language(pattern, mode='match'):
                     alts2 = []
                     for b, e in zip(brs, ends):
                         body = t.seq(b[:-1] if e else b, ctx)
+                        if e and b[-1][1] == sre_c.AT_END:
+                            body = smt.ReConcat(body, NL_OPT)     # `$` also matches before a final newline
                         alts2.append(body if e else smt.ReConcat(body, smt.ReAll()))
                     return smt.ReConcat(head, smt.ReUnion(*alts2))
             return t.seq(items, ctx)
@@ -239,6 +245,8 @@ def match_language(pattern, mode='match'):
         body = smt.ReUnion(*bodies)
         pre = smt.ReStr(smt.StrC('')) if (t.anchored_start or mode in ('match', 'fullmatch')) else smt.ReAll()
         post = smt.ReStr(smt.StrC('')) if (t.anchored_end or mode == 'fullmatch') else smt.ReAll()
+        if getattr(t, 'dollar', False) and mode != 'fullmatch':
+            post = NL_OPT
         alts.append(smt.ReConcat(pre, body, post) if True else body)
     return smt.ReUnion(*alts)
 
